@@ -51,7 +51,7 @@ def session(rng, nops):
         elif x < 0.64:
             # the CE pin driven by the application ("advanced usage": starts what write(write_only=True) queued, stops /
             # resumes listening) and the received-power detector
-            ops.append(rng.choice(["a set ce_pin T", "a set ce_pin F", "a get ce_pin", "a get rpd", "b get rpd"]))
+            ops.append(rng.choice(["a set ce_pin 1", "a set ce_pin 0", "a get ce_pin", "a get rpd", "b get rpd"]))
         elif x < 0.7:
             ops.append("a read N")
         else:
